@@ -2,8 +2,8 @@
 from .common import *
 
 
-def lu_run(nn, reset, name):
-    return run_tlc("LinAlg.tla", cfg(constants={"NN": nn}, overrides={"ReSet": reset},
+def lu_run(nn, reset, name, family=None):
+    return run_tlc("LinAlg.tla", cfg(constants={"NN": nn}, overrides=dict({"ReSet": reset}, **({"InitMats": family} if family else {})),
                                      invariants=["LUCorrect", "SolveCorrect", "InverseCorrect", "DetCorrect", "FailIffSingularColumn",
                                                  "PermIsPermutation", "SortedAscending", "ExportLU"]),
                    name, workers=7, timeout=3000, coverage=True, heap="6g")
@@ -19,9 +19,11 @@ def run(tier):
     chk = Check("C12", tier, "model_checking")
     build_harness("hfeat")
     jobs = [lambda: lu_run(2, "ReSetN2", "lu_2"), lambda: lu_run(3, "ReSetN3" if tier == "quick" else "ReSetN3T", "lu_3"),
-            lambda: jacobi_run(2), lambda: jacobi_run(3), lambda: jacobi_run(4)]
-    runs = parallel(jobs, 5)
-    for r in runs[2:]:
+            lambda: jacobi_run(2), lambda: jacobi_run(3), lambda: jacobi_run(4),
+            lambda: lu_run(4, "ReSetN3", "lu_4", family="Family4")]
+    runs = parallel(jobs, 6)
+    runs = runs[:2] + [runs[5]] + runs[2:5]
+    for r in runs[3:]:
         chk.add_tlc(r, "jacobi_eigenvalue as a step machine (Sweep / Rot / Sort) on the rational-rotation family, block at every "
                        "position (p, q): A V = V diag(d), V^T V = I, ascending, Hellmann-Feynman, one rotation")
         if r.violated:
@@ -37,7 +39,7 @@ def run(tier):
             chk.violation("Jacobi replay: %s" % json.dumps(v)[:500], {"kind": "jacobi-case", **v})
         if rep["cases"] < 5:
             raise ToolError("vacuity: %d Jacobi cases" % rep["cases"])
-    runs = runs[:2]
+    runs = runs[:3]
     for r in runs:
         chk.add_tlc(r, "LU::new as a step machine (Pivot / Swap / Elim / fail) over dual-rational matrices: P A = L U, A x = b, "
                        "A A^-1 = I, determinant = Leibniz expansion (parity, Jacobi's formula), fail iff singular pivot column; "
